@@ -29,12 +29,12 @@ use crate::core::{
 
 pub static DEF: CheckDef = CheckDef {
     id: "C25",
-    variants: &["graphql-transport-ws", "subscriptions-transport-ws", "graphql-transport-ws/message-stream", "subscriptions-transport-ws/faults", "graphql-transport-ws/faults"],
+    variants: &["graphql-transport-ws", "subscriptions-transport-ws", "graphql-transport-ws/message-stream", "subscriptions-transport-ws/faults", "graphql-transport-ws/faults", "graphql-transport-ws/dynamic-schema", "subscriptions-transport-ws/dynamic-schema"],
     run,
     quick_runs: 300_000,
     thorough_runs: 20_000_000,
     rule: "case = real WebSocket state machine (both constructors, both protocols) over the real static harness schema as Executor; client script of 1-10 messages at drawn times (init, duplicate init, subscribe/start with fresh, live and completed ids from a 3-id pool, queries over the socket, complete/stop of live and unknown ids, ping, pong, terminate (legacy), invalid JSON, unknown type, disconnect) interleaved by the simulator with subscription events, source ends, gated on_connection_init/on_ping completions (which may fail), keep-alive expiries and a consumer that may lag so that several inputs are queued before one poll. Oracle: protocol monitor over the merged history (message consumption points, outputs, resolver starts): nothing after close/end; at most one ack and only after an init; no next/data/complete and no resolver start before the ack; every next/data id live, payload = an event delivered to that operation, once, in order; complete at most once per subscription; graphql-transport-ws close codes 4429/4401/4409/4400 right after the offending message; bounded liveness at quiescence. Non-trivial = at least one operation was live while another input was processed; distinct = distinct event-order hashes.",
-    real: &["async_graphql::http::WebSocket::poll_next (both constructors)", "ClientMessage decoding", "Schema::execute_stream as Executor", "hook H1 (fixed hasher for the operation map, cfg async_graphql_verif)"],
+    real: &["async_graphql::http::WebSocket::poll_next (both constructors)", "ClientMessage decoding", "Schema::execute_stream and dynamic::Schema::execute_stream as Executor", "hook H1 (fixed hasher for the operation map, cfg async_graphql_verif)"],
     stub: &["client (scripted inbox)", "subscription sources (simulated channels)", "on_connection_init / on_ping callbacks (gated, may fail)", "keep-alive Timer (simulated clock)", "consumer (web-framework integration role)"],
     assumptions: &["messages reach the server in the order sent (a WebSocket is an ordered stream)", "the web-framework integrations only forward WsMessage items; they are not run"],
     restrictions: &["connection_terminate is only sent under the legacy protocol", "event loss after stop/replace is counted, not judged (the property promises no delivery)"],
@@ -216,8 +216,9 @@ fn run(variant: usize) -> CaseOut {
     reset_world();
     WSLOG.with(|l| l.borrow_mut().clear());
     ACK_AT.with(|a| *a.borrow_mut() = None);
-    let legacy = variant == 1 || variant == 3;
-    let faults = variant >= 3;
+    let legacy = variant == 1 || variant == 3 || variant == 6;
+    let faults = variant == 3 || variant == 4;
+    let dynamic_executor = variant >= 5;
     let message_stream = variant == 2;
     let protocol = if legacy { Protocols::SubscriptionsTransportWS } else { Protocols::GraphQLWS };
     let script = gen_script(legacy, faults);
@@ -329,7 +330,13 @@ fn run(variant: usize) -> CaseOut {
             }
         }
     };
-    if message_stream {
+    if dynamic_executor {
+        let mut ws = WebSocket::new(world::dynamic_schema(0).clone(), Inbox { rx: in_rx }, protocol).on_connection_init(on_init).on_ping(on_ping);
+        if let Some(d) = keepalive {
+            ws = ws.keepalive_timeout(SimTimer { late: false }, Duration::from_micros(d));
+        }
+        sim::spawn_local("ws-consumer", consumer(Box::pin(ws)));
+    } else if message_stream {
         let mut ws = WebSocket::from_message_stream(schema, MsgInbox { rx: in_rx }, protocol).on_connection_init(on_init).on_ping(on_ping);
         if let Some(d) = keepalive {
             ws = ws.keepalive_timeout(SimTimer { late: false }, Duration::from_micros(d));
